@@ -118,6 +118,42 @@ Section Proofs.
     intros Hk. inversion Hk. split; reflexivity.
   Qed.
 
+  (* ---------- the binding store: every stored address is bound to an identity that is ITS OWN
+     and verifies — after any number of admissions and announcement chains ---------- *)
+  Definition store_sound (st : store) : Prop :=
+    forall ip a, In (ip, a) st -> a_ip a = ip /\ verify_address H a = Ok tt.
+
+  Lemma admit_binding_sound st a st' : store_sound st -> admit_binding H st a = Ok st' -> store_sound st'.
+  Proof.
+    intros Hs. unfold admit_binding. destruct (verify_address H a) as [[]|e|] eqn:Hv; cbn [bind]; try discriminate.
+    destruct (lookup_binding st (a_ip a)); intros E; inversion E; subst; [exact Hs|].
+    intros ip b [Hb|Hb]; [inversion Hb; subst; split; [reflexivity|exact Hv] | apply Hs; exact Hb].
+  Qed.
+
+  Theorem admit_chain_sound : forall l st, store_sound st -> store_sound (fst (admit_chain H st l)).
+  Proof.
+    induction l as [|a t IH]; intros st Hs; cbn [admit_chain]; [exact Hs|].
+    destruct (admit_binding H st a) as [st'|e|] eqn:E; [|exact Hs|exact Hs].
+    apply IH. eapply admit_binding_sound; eassumption.
+  Qed.
+
+  (* a rejected identity leaves the store unchanged, and an existing binding is never replaced *)
+  Theorem admit_binding_rejects st a c : verify_address H a = Err c -> admit_binding H st a = Err c.
+  Proof. intros Hv. unfold admit_binding. rewrite Hv. reflexivity. Qed.
+
+  Lemma lookup_cons_other st ip b : bytes_eqb (fst b) ip = false -> lookup_binding (b :: st) ip = lookup_binding st ip.
+  Proof. intros E. unfold lookup_binding. cbn [find]. rewrite E. reflexivity. Qed.
+
+  Theorem admit_binding_keeps st a st' ip b : admit_binding H st a = Ok st' ->
+    lookup_binding st ip = Some b -> lookup_binding st' ip = Some b.
+  Proof.
+    unfold admit_binding. destruct (verify_address H a) as [[]|e|]; cbn [bind]; try discriminate.
+    destruct (lookup_binding st (a_ip a)) eqn:La; intros E Hl; inversion E; subst; [exact Hl|].
+    destruct (bytes_eqb (a_ip a) ip) eqn:Eq.
+    - apply bytes_eqb_eq in Eq. subst. rewrite La in Hl. discriminate.
+    - rewrite lookup_cons_other by exact Eq. exact Hl.
+  Qed.
+
   (* ---------- the generator only returns identities that verify and lie where asked ---------- *)
   Theorem generator_sound h hname key acc ign fuel : forall easing a,
     H hname = Some h -> length key = 32%nat ->
